@@ -43,7 +43,24 @@ func (e *Engine) intrinsic(st *State, fn *ssa.Function, args []Value, ci ssa.Val
 		switch short {
 		case "vU64", "vU32", "vU16", "vU8", "vInt", "vBool":
 			w := map[string]int{"vU64": 64, "vU32": 32, "vU16": 16, "vU8": 8, "vInt": 64, "vBool": 0}[short]
-			e.finish(st, ci, e.newVar(st, args[0].(string), w), fd)
+			e.finish(st, ci, e.newHVar(st, args[0].(string), w), fd)
+			return true
+		case "vBytes":
+			n, ok := concreteInt(args[1])
+			if !ok || n < 0 || n > 4096 {
+				panic(unsupported("vBytes with symbolic/large length"))
+			}
+			arr := &Array{E: make([]Value, n)}
+			for i := range arr.E {
+				arr.E[i] = e.newHVar(st, args[0].(string), 8)
+			}
+			e.finish(st, ci, &Slice{Obj: st.alloc(arr), Len: n, Cap: n}, fd)
+			return true
+		case "vTier":
+			e.finish(st, ci, Const(64, uint64(e.tier)), fd)
+			return true
+		case "vSymbolic":
+			e.finish(st, ci, Bool(true), fd)
 			return true
 		case "vAssume":
 			c := args[0].(*Term)
@@ -70,6 +87,7 @@ func (e *Engine) intrinsic(st *State, fn *ssa.Function, args []Value, ci ssa.Val
 			e.asserts[id]++
 			if !c.IsTrue() {
 				r := "sat"
+				e.assertQ++
 				if !c.IsFalse() {
 					r = e.solver.Check(st.pc, Not(c))
 				} else {
@@ -79,8 +97,7 @@ func (e *Engine) intrinsic(st *State, fn *ssa.Function, args []Value, ci ssa.Val
 					panic(unsupported("solver unknown"))
 				}
 				if r == "sat" {
-					m := e.solver.Model(st.vars)
-					e.viol = append(e.viol, fmt.Sprintf("ASSERT %s violated: model %v trace %v", id, m, st.trace))
+					e.recordViolation(st, "assert", id)
 					st.outcome = "VIOLATION " + id
 					return true
 				}
@@ -94,8 +111,8 @@ func (e *Engine) intrinsic(st *State, fn *ssa.Function, args []Value, ci ssa.Val
 			return true
 		case "vChoose":
 			n, _ := concreteInt(args[1])
-			v := e.newVar(st, args[0].(string), 64)
-			k, ok := e.concretize(st, v, n)
+			v := e.newHVar(st, args[0].(string), 64)
+			k, ok := e.chooseFresh(st, v, n)
 			if !ok {
 				st.outcome = "assume-false"
 				return true
@@ -117,7 +134,7 @@ func (e *Engine) intrinsic(st *State, fn *ssa.Function, args []Value, ci ssa.Val
 				return true
 			}
 			fv0 := e.newVar(st, "sched", 64)
-			first, ok := e.concretize(st, fv0, len(st.spawned))
+			first, ok := e.chooseFresh(st, fv0, len(st.spawned))
 			if !ok {
 				st.outcome = "assume-false"
 				return true
@@ -140,7 +157,15 @@ func (e *Engine) intrinsic(st *State, fn *ssa.Function, args []Value, ci ssa.Val
 			e.switchTo(st, first+1)
 			return true
 		case "vEvent":
-			st.trace = append(st.trace, fmt.Sprint(args[0]))
+			ev := Event{Kind: fmt.Sprint(args[0])}
+			if len(args) > 1 {
+				if sl, ok := args[1].(*Slice); ok && sl.Len > 0 {
+					for _, a := range e.sliceElems(st, sl) {
+						ev.Args = append(ev.Args, a.(*Term))
+					}
+				}
+			}
+			st.events = append(st.events, ev)
 			e.finish(st, ci, nil, fd)
 			return true
 		}
